@@ -574,6 +574,31 @@ func OpenWith(path string, vLogs []appendable.Appendable, txLog, cLog appendable
 	tx, _ := txPool.Alloc()
 
 	for {
+		// with embedded values every transaction is preceded in the txLog by the total
+		// length of its values and the values themselves (see performPrecommit)
+		txPrefixLen := 0
+
+		if embeddedValues {
+			embeddedValuesLen, err := txReader.ReadUint16()
+			if errors.Is(err, io.EOF) {
+				break
+			}
+			if err != nil {
+				opts.logger.Infof("%v: discarding pre-committed transaction: %d", err, precommittedTxID+1)
+				break
+			}
+
+			embeddedValuesBs := make([]byte, embeddedValuesLen)
+
+			_, err = txReader.Read(embeddedValuesBs)
+			if err != nil {
+				opts.logger.Infof("%v: discarding pre-committed transaction: %d", err, precommittedTxID+1)
+				break
+			}
+
+			txPrefixLen = sszSize + int(embeddedValuesLen)
+		}
+
 		err = tx.readFrom(txReader, false)
 		if errors.Is(err, io.EOF) {
 			break
@@ -591,7 +616,10 @@ func OpenWith(path string, vLogs []appendable.Appendable, txLog, cLog appendable
 		precommittedTxID++
 		precommittedAlh = tx.header.Alh()
 
-		txSize := int(txReader.ReadCount() - (precommittedTxLogSize - committedTxLogSize))
+		txSize := int(txReader.ReadCount()-(precommittedTxLogSize-committedTxLogSize)) - txPrefixLen
+
+		// the transaction itself starts after its embedded values
+		precommittedTxLogSize += int64(txPrefixLen)
 
 		err = cLogBuf.put(precommittedTxID, precommittedAlh, precommittedTxLogSize, txSize)
 		if errors.Is(err, ErrBufferIsFull) {
